@@ -70,7 +70,8 @@ CHECKS = {
              "produced as Uint64(len), null only for non-existent folds; engine and indexer read the same output sources; "
              "decision table of the context suspension methods (suspending is idempotent, un-suspending restores the saved vertex, "
              "nothing else changes) - the vertex a suspended context is restored to is what its outputs are read from; a fold "
-             "element without a nested value contributes null, one with a value contributes it unchanged. "
+             "element without a nested value contributes null, one with a value contributes it unchanged; the worklist that fills "
+             "the defaults of an empty fold reaches every output of every nested fold. "
              "Not decided: validity of adapter-supplied values.",
         note="trusted: Type model (C17), collection model",
         technique="static analysis: abstract interpretation of indexer helpers + pairing / footprint rules",
@@ -263,7 +264,7 @@ CHECKS = {
              "property / edge resolvers evaluated over every field-type shape (scalars, lists nested up to three levels, vertices): "
              "every field is listed exactly once, on the right side, with its exact type; the implements / implementer resolvers "
              "evaluated on an interface hierarchy (interfaces implementing interfaces): declared list, itself + every declaring "
-             "type, inverse relations.",
+             "type, inverse relations; every exit of the adapter's resolvers hands `contexts` to a contract helper.",
         note="trusted: async-graphql-parser's TypeDefinition/FieldDefinition meaning; exactness for a concrete schema is not decided beyond these clauses",
         technique="static analysis: string-dispatch table extraction vs the schema file + accessor footprint rules over typed HIR",
         design_ref="DESIGN.md section 4 C20"),
